@@ -124,7 +124,8 @@ VARIABLES from,       \* fetchRawBlockBatches: fromBlockNum
           dropped,    \* the peer's rpc.Serve loop ended (peer disconnected)
           tainted,    \* the peer has served an answer that the pipeline has to refuse
           reqs,       \* number of GetBlocksFromNumber round trips
-          scen        \* (SpecB only) the scripted scenario [H, A, R, wr, tie, k, fault, fpos]
+          scen,       \* (SpecB only) the scripted scenario [H, A, R, wr, tie, k, fault, fpos]
+          live        \* stages of the errgroup that have not returned yet; download returns (g.Wait) when it is empty
 varsB == <<from, fetchDone, rawQ, dec, warmQ, store, maxNum, best, imported, status, dropped, tainted, reqs>>
 
 ErrClasses == {"disconnected", "decode", "oversized", "struct", "sequence", "body",
@@ -134,6 +135,11 @@ Blk(id, num, parent, kind, score, ord) ==
   [id |-> id, num |-> num, parent |-> parent, kind |-> kind, score |-> score, ord |-> ord]
 
 Better(b, cur) == b.score > cur.score \/ (b.score = cur.score /\ b.ord < cur.ord)    \* Header.BetterThan
+\* Communicator.Sync picks a peer whose announced total score is >= the own best's: every head the fork choice prefers -
+\* a score tie won by the smaller id included - must be selectable
+Selectable(peerScore, ownScore) == peerScore >= ownScore
+ASSUME \A s1, s2 \in 0..3 : \A o1, o2 \in 0..2 :
+         Better([score |-> s1, ord |-> o1], [score |-> s2, ord |-> o2]) => Selectable(s1, s2)
 Known(b)        == \E s \in store : s.id = b.id
 ParentStored(b) == \E s \in store : s.id = b.parent /\ s.num + 1 = b.num
 BestOf(S)       == CHOOSE b \in S : \A o \in S : o = b \/ Better(b, o) \/ ~Better(o, b)
@@ -230,6 +236,19 @@ Finish ==
   /\ UNCHANGED <<from, fetchDone, rawQ, dec, warmQ, store, maxNum, best, imported, dropped, tainted, reqs>>
 
 BSilent == DecTake \/ DecBlock \/ DecThrottle \/ DecDone \/ Handle \/ Finish
+
+\* errgroup: the first error (or the normal end) cancels the group context; EVERY stage has to return on it, wherever it
+\* is blocked - the fetcher in Call or on `rawBatches <- batch`, the decoder on `warmedUp <- blk` with the channel full
+\* (more than WarmCap decoded blocks behind a block the handler refused), the handler after its current block.
+\* download() returns only when all three have returned (g.Wait()).
+Stages == {"fetch", "dec", "handle"}
+StageExit(sg) ==
+  /\ status # "run" /\ sg \in live
+  /\ live' = live \ {sg}
+  /\ UNCHANGED varsB
+Returned == status # "run" /\ live = {}
+\* the shape a hostile peer can produce at will: handler error while the pipeline is full
+FullPipelineOnError == status \in {"parent", "consensus"} /\ Len(warmQ) = WarmCap /\ dec # None /\ rawQ # <<>>
 
 \* --- invariants of (B) over any peer --------------------------------------------------------------------
 NoInvalidStored == \A s \in store : s.kind = "ok"
@@ -330,15 +349,15 @@ IdleB == /\ from = 0 /\ fetchDone = FALSE /\ rawQ = <<>> /\ dec = None /\ warmQ 
 IdleC == /\ conn = "open" /\ cstore = "S0" /\ cpool = 0 /\ cfeed = 0 /\ cann = 0 /\ creply = 0 /\ last = "none"
 
 NoScen == [H |-> 0, A |-> 0, R |-> 0, wr |-> 1, tie |-> FALSE, k |-> 0, fault |-> "none", fpos |-> 1]
-vars == <<varsA, varsB, varsC, scen>>
+vars == <<varsA, varsB, varsC, scen, live>>
 
 \* ---- SpecA: every (H, A, R) ---------------------------------------------------------------------------
-InitA == /\ IdleB /\ IdleC /\ scen = NoScen
+InitA == /\ IdleB /\ IdleC /\ scen = NoScen /\ live = {}
          /\ \E h \in 0..MaxH : \E a \in 0..h : \E r \in a..(MaxH + ExtraR) :
               /\ aH = h /\ aA = a /\ aR = r
               /\ bw = 0 /\ st = 0 /\ en = 0 /\ anc = 0 /\ res = 0 /\ probes = <<>>
               /\ apc = IF h = 0 THEN "done" ELSE "seek"
-NextA == AStep /\ UNCHANGED <<varsB, varsC, scen>>
+NextA == AStep /\ UNCHANGED <<varsB, varsC, scen, live>>
 SpecA == InitA /\ [][NextA]_vars /\ WF_vars(NextA)
 
 \* ---- SpecB: scripted peers ----------------------------------------------------------------------------
@@ -389,14 +408,15 @@ InitB == /\ IdleA /\ IdleC
          /\ store = LocalStore /\ best = LBlk(scen.H) /\ maxNum = scen.H
          /\ from = scen.A - scen.k + 1 /\ fetchDone = FALSE /\ rawQ = <<>> /\ dec = None /\ warmQ = <<>>
          /\ imported = <<>> /\ status = "run" /\ dropped = FALSE /\ tainted = FALSE /\ reqs = 0
+         /\ live = Stages
 
 FetchScripted ==
   LET a == PeerAnswer(from) IN
   /\ Fetch(a)
   /\ tainted' = (tainted \/ a.bad)
 
-NextB == /\ \/ FetchScripted
-            \/ BSilent
+NextB == /\ \/ (FetchScripted \/ BSilent) /\ UNCHANGED live
+            \/ \E sg \in Stages : StageExit(sg)
          /\ UNCHANGED <<varsA, varsC, scen>>
 SpecB == InitB /\ [][NextB]_vars /\ WF_vars(NextB)
 
@@ -420,16 +440,16 @@ HostileHarmless ==
   /\ NoInvalidStored /\ ParentClosed /\ BestIsStoredMax /\ StoreIsValidPrefix /\ NothingPastFault
   /\ FaultReported /\ DroppedIsError /\ SequenceGuards
   /\ ~Better(LBlk(scen.H), best)                  \* the local best never gets worse
-BTerminates == <>(status # "run")
+BTerminates == <>Returned                        \* download() returns, whatever the peer did
 HonestCompletes == scen.fault = "none" => <>(status = "ok")
 
 \* ---- SpecC: every code x class ------------------------------------------------------------------------
-InitC == IdleA /\ IdleB /\ IdleC /\ scen = NoScen
+InitC == IdleA /\ IdleB /\ IdleC /\ scen = NoScen /\ live = {}
 NextC == /\ \/ \E code \in 0..8 : \E cls \in Classes : \E call \in BOOLEAN : \E acc \in BOOLEAN :
                   /\ cpool < 2 /\ cfeed < 2 /\ cann < 2 /\ creply < 3
                   /\ HandleMsg(code, cls, call, acc)
             \/ (conn = "closed" /\ CReset)
-         /\ UNCHANGED <<varsA, varsB, scen>>
+         /\ UNCHANGED <<varsA, varsB, scen, live>>
 SpecC == InitC /\ [][NextC]_vars
 RejectChangesNothing ==
   [][(last' = "reject" /\ conn = "open" /\ conn' = "closed") =>
